@@ -1,0 +1,36 @@
+//go:build verif
+
+package verifspec
+
+// Dead-code elimination (compiler/internal/dce): the roots and the set mechanics.  Property C05.
+
+// ---- Info: a declaration is a root when it was marked alive or never named.
+//@ func compiler/internal/dce.Info.unnamed
+//@ property C05
+//@   ensures result == (len(d.objectFilter) == 0 && len(d.methodFilter) == 0)
+//@ func compiler/internal/dce.Info.isAlive
+//@ property C05
+//@   ensures result == (d.alive || (len(d.objectFilter) == 0 && len(d.methodFilter) == 0))
+//@ func compiler/internal/dce.Info.SetAsAlive
+//@ property C05
+//@   ensures d.alive
+//@   ensures d.objectFilter == old(d.objectFilter) && d.methodFilter == old(d.methodFilter)
+//@ func compiler/internal/dce.Info.addDepName
+//@ property C05
+//@   ensures len(depName) > 0 ==> has(d.deps, depName)
+//@   ensures all(k, has(old(d.deps), k) ==> has(d.deps, k))
+//@   ensures d.alive == old(d.alive)
+
+// ---- Selector: a root (alive, unnamed, or the implementation of a go:linkname) is queued by Include and nothing
+// already queued is lost; AliveDecls keeps everything that was queued.
+//@ pure dceOf(d int) int
+//@ extern compiler/internal/dce.Decl.Dce
+//@   param d
+//@   assigns nothing
+//@   ensures result != nil && ref(result) == dceOf(key(d))
+
+//@ func compiler/internal/dce.Selector.Include
+//@ property C05
+//@   requires s != nil
+//@   ensures (asptr(dceOf(key(decl)), "compiler/internal/dce.Info").alive || (len(asptr(dceOf(key(decl)), "compiler/internal/dce.Info").objectFilter) == 0 && len(asptr(dceOf(key(decl)), "compiler/internal/dce.Info").methodFilter) == 0) || implementsLink) ==> len(s.pendingDecls) == len(old(s.pendingDecls)) + 1 && s.pendingDecls[len(s.pendingDecls) - 1] == decl
+//@   ensures len(s.pendingDecls) >= len(old(s.pendingDecls)) && forall(k, 0, len(old(s.pendingDecls)), s.pendingDecls[k] == old(s.pendingDecls)[k])
